@@ -15,6 +15,7 @@ func init() {
 				{Harness: "c09.faults", Mode: "plain", Shards: 8},
 				{Harness: "c09.multi", Mode: "plain", Shards: 16},
 				{Harness: "c09.strings", Mode: "plain", Shards: 16},
+				{Harness: "c09.retain", Mode: "plain", Shards: 16},
 			}
 		},
 	})
